@@ -335,3 +335,56 @@ def adc_monotone(case, ctx):
         b = np.asarray(detector.adc(lo[1].copy(), gain, saturation_capacity=sat), dtype=float)
     if np.any(b < a):
         raise Violation("C16.adc.monotone", f"more electrons gave a smaller digital number (gain {form} order {order})")
+
+
+# --- detector-sized frames --------------------------------------------------------------------------------
+
+@st.composite
+def bayer_large_case(draw, tier):
+    k = draw(st.sampled_from([2, 2, 3, 4, 6]))
+    pattern = "".join(draw(st.lists(st.sampled_from("RGB"), min_size=k * k, max_size=k * k)))
+    os_ = draw(st.sampled_from([1, 2, 3, 5]))
+    long_native = int(np.ceil(draw(st.sampled_from([520, 600, 770, 1030])) / (k * os_))) * k
+    short_native = k * draw(st.integers(1, 3))
+    tall = draw(st.booleans())
+    native = (long_native, short_native) if tall else (short_native, long_native)
+    return {"k": k, "pattern": pattern, "oversample": os_, "native": list(native), "seed": draw(st.integers(0, 2**31 - 1)),
+            "nw": draw(st.integers(1, 2)), "flatten": draw(st.booleans())}
+
+
+@hyp("C16", "bayer_large", lambda tier: bayer_large_case(tier),
+     "collect_charge_bayer on detector-sized frames (more than 512 oversampled rows or columns) vs the per-sub-pixel "
+     "colour lookup", examples=(20, 60), budget_s=(120, 600))
+def bayer_large(case, ctx):
+    k, os_ = case["k"], case["oversample"]
+    shape = (case["native"][0] * os_, case["native"][1] * os_)
+    rng = np.random.default_rng(case["seed"])
+    nw = case["nw"]
+    img = rng.uniform(1, 100, size=(nw,) + shape)
+    wave = np.linspace(500.0, 700.0, nw)
+    q = {"R": rng.uniform(0.1, 1, size=nw), "G": rng.uniform(0.1, 1, size=nw), "B": rng.uniform(0.1, 1, size=nw)}
+    pat = np.array(list(case["pattern"])).reshape(k, k)
+    ctx.tag(f"k:{k}", f"os:{os_}", "tall" if shape[0] > shape[1] else "wide", f"rows:{shape[0] // 256 * 256}+")
+    ctx.nontrivial_if(len(set(case["pattern"])) >= 2)
+    with lentil_call("C16.bayer_large", f"collect_charge_bayer(image {shape}, pattern {case['pattern']}, os {os_})"):
+        out = detector.collect_charge_bayer(img, wave, q["R"], q["G"], q["B"], case["pattern"], oversample=os_,
+                                            flatten=case["flatten"])
+    rows = (np.arange(shape[0]) // os_) % k
+    cols = (np.arange(shape[1]) // os_) % k
+    chan = pat[rows[:, None], cols[None, :]]
+    exp = np.zeros(shape)
+    per = {}
+    for c in "RGB":
+        e = np.einsum("ijk,i->jk", img, q[c]) * (chan == c)
+        per[c] = e
+        exp += e
+    flat = out if case["flatten"] else sum(np.asarray(o) for o in out)
+    tol = 1e-11 * float(exp.max())
+    if flat.shape != shape or np.max(np.abs(flat - exp)) > tol:
+        bad = np.argwhere(np.abs(flat - exp) > tol)
+        raise Violation("C16.bayer_large.mosaic", f"image {shape}, pattern {case['pattern']}, oversample {os_}: "
+                                                  f"{len(bad)} sub-pixels use the wrong colour, first at {bad[0].tolist()}")
+    if not case["flatten"]:
+        for c, o in zip("RGB", out):
+            if np.max(np.abs(np.asarray(o) - per[c])) > tol:
+                raise Violation("C16.bayer_large.channels", f"channel {c} differs on a {shape} frame")
